@@ -120,10 +120,10 @@ theorem C20_honoured_construct (c : Case) (hwf : wf c = true) (st st' : St) (k :
 /-- **C20_honoured_assign**: an assignment runs the hooks the field is subject to (its own `on_setattr`,
     else the class's, else `define`'s convert+validate, none for `NO_OP` or plain `attr.s`): user hooks and
     the converter whatever the switch says, the field's validators at each `setters.validate` iff enabled. -/
-theorem C20_honoured_assign (c : Case) (st st' : St) (k i : Nat) (cls : Cls) (f : Field)
+theorem C20_honoured_assign (c : Case) (st st' : St) (k i : Nat) (v : AssignVal) (cls : Cls) (f : Field)
     (hk : c.classes[k]? = some cls) (hf : cls.fields[i]? = some f) :
-    (stepObs c st st' (.assign k i)).events = cutIds c.fault (assignPlan cls st.run f) ∧
-    (stepObs c st st' (.assign k i)).exc =
+    (stepObs c st st' (.assign k i v)).events = cutIds c.fault (assignPlan cls st.run f) ∧
+    (stepObs c st st' (.assign k i v)).exc =
       (if hitsIds c.fault (assignPlan cls st.run f) then some .user else none) := by
   simp only [stepObs, hk, hf, mkStep, runAssign_eq, events_of_run, exc_of_run, and_self]
 
@@ -134,17 +134,24 @@ theorem C20_honoured_validate (c : Case) (st st' : St) (k : Nat) (cls : Cls) (hk
       (if hitsIds c.fault (validatePlan cls st.run) then some .user else none) := by
   simp only [stepObs, hk, mkStep, runValidate_eq, events_of_run, exc_of_run, and_self]
 
+/-- **C20_assign_value_irrelevant**: which object is assigned — a new one, the very object the attribute
+    already holds (`c.x = c.x`, also when that object was stored while validators were disabled and so never
+    saw a validator), an equal copy, or the stored object after an in-place `+=` — makes no difference to
+    the hooks that run: there is no "nothing changed" short cut around `setters.validate`. -/
+theorem C20_assign_value_irrelevant (c : Case) (st st' : St) (k i : Nat) (v w : AssignVal) :
+    stepObs c st st' (.assign k i v) = stepObs c st st' (.assign k i w) := rfl
+
 /-- **C20_readers_memoryless**: what a construction, assignment or `validate()` runs depends on the class of
     the instance, the switch position and nothing else: not on which instances of which classes of the
     hierarchy were constructed, assigned to or validated before, nor on open blocks.  (In particular a
     subclass instance gets *its* fields' validators whether or not a base-class instance was validated
     first.) -/
 theorem C20_readers_memoryless (c : Case) (st₁ st₁' st₂ st₂' : St) (op : Op)
-    (hop : (∃ k, op = .construct k) ∨ (∃ k i, op = .assign k i) ∨ (∃ k, op = .validate k))
+    (hop : (∃ k, op = .construct k) ∨ (∃ k i v, op = .assign k i v) ∨ (∃ k, op = .validate k))
     (h : st₁.run = st₂.run) :
     (stepObs c st₁ st₁' op).events = (stepObs c st₂ st₂' op).events ∧
     (stepObs c st₁ st₁' op).exc = (stepObs c st₂ st₂' op).exc := by
-  rcases hop with ⟨k, rfl⟩ | ⟨k, i, rfl⟩ | ⟨k, rfl⟩ <;> simp only [stepObs, h] <;>
+  rcases hop with ⟨k, rfl⟩ | ⟨k, i, v, rfl⟩ | ⟨k, rfl⟩ <;> simp only [stepObs, h] <;>
     (repeat' split) <;> simp [mkStep]
 
 /-- disabled ⇒ no validator among the callbacks of any of the three readers -/
@@ -272,7 +279,7 @@ theorem C20_block_silences_validators (c : Case) (hwf : wf c = true) (st : St) (
     ((stepObs c (runSt st (.enter :: body)) (runSt st (.enter :: body)) (.construct k)).events.filter isValidator = []) ∧
     ((stepObs c (runSt st (.enter :: body)) (runSt st (.enter :: body)) (.validate k)).events = []) ∧
     (∀ i f, cls.fields[i]? = some f →
-      (stepObs c (runSt st (.enter :: body)) (runSt st (.enter :: body)) (.assign k i)).events.filter isValidator = []) := by
+      (stepObs c (runSt st (.enter :: body)) (runSt st (.enter :: body)) (.assign k i .same)).events.filter isValidator = []) := by
   have hr := C20_disabled_inside st body d' hb hno
   generalize runSt st (.enter :: body) = s at hr
   intro k cls hk
@@ -281,7 +288,7 @@ theorem C20_block_silences_validators (c : Case) (hwf : wf c = true) (st : St) (
     exact filter_cutIds_nil _ _ _ (C20_disabled_no_validator cls default).1
   · rw [(C20_honoured_validate c s s k cls hk).1, hr]; rfl
   · intro i f hf
-    rw [(C20_honoured_assign c s s k i cls f hk hf).1, hr]
+    rw [(C20_honoured_assign c s s k i .same cls f hk hf).1, hr]
     exact filter_cutIds_nil _ _ _ (C20_disabled_no_validator cls f).2.1
 
 /-- **C20_default_hook_documented** (tables regenerated from the source, T1): `_DEFAULT_ON_SETATTR` is
@@ -297,9 +304,9 @@ theorem C20_default_hook_documented :
 /-- the three readers and the getters never move the switch -/
 theorem C20_readers_leave_switch (st : St) (op : Op)
     (h : (∃ k, op = .construct k) ∨ (∃ k, op = .validate k) ∨ op = .getDisabled ∨ op = .getRun ∨
-      ∃ k i, op = .assign k i) :
+      ∃ k i v, op = .assign k i v) :
     stepSt st op = st := by
-  rcases h with ⟨k, h⟩ | ⟨k, h⟩ | h | h | ⟨k, i, h⟩ <;> subst h <;> rfl
+  rcases h with ⟨k, h⟩ | ⟨k, h⟩ | h | h | ⟨k, i, v, h⟩ <;> subst h <;> rfl
 
 /-! ## The specification's bracket matching is the usual one -/
 
@@ -371,7 +378,7 @@ def sampleCase : Case :=
       { isDefine := true, clsOnSet := .unset, kwOnly := false, pre := .noArgs, post := true,
         fields := [{ name := "x", validators := 1, conv := false, onSet := .unset, factory := false }] }],
     fault := some { kind := "validator", field := "y", idx := 0 }, start := true,
-    ops := [.validate 0, .validate 1, .validate 2, .enter, .enter, .setDisabled .F, .assign 1 1, .exitExc,
+    ops := [.validate 0, .validate 1, .validate 2, .enter, .enter, .setDisabled .F, .assign 1 1 .same, .exitExc,
             .construct 1, .exit, .validate 1] }
 
 example : wf sampleCase = true := by decide
